@@ -958,6 +958,11 @@ func (h *harness) runCase(cs Case, verbose bool) *failure {
 			}
 		}
 		return r.fail
+	case "hist":
+		f := h.checkHist(cs, verbose)
+		key, _ := json.Marshal(cs.Hist)
+		h.run.Case("hist:"+string(key), histNontrivial(cs.Hist))
+		return f
 	case "url":
 		f := h.checkURL(*cs.URL, verbose)
 		h.run.Case("url:"+cs.URL.Raw+fmt.Sprint(cs.URL.Pairs), strings.ContainsAny(cs.URL.Raw, "%+;") || len(cs.URL.Pairs) > 0)
@@ -1066,6 +1071,9 @@ func (h *harness) report(cs Case, f *failure) {
 	if cs.Kind == "op" {
 		cs, f = h.shrinkOp(cs, f)
 	}
+	if cs.Kind == "hist" && f.kind == "property" {
+		cs, f = h.shrinkHist(cs, f)
+	}
 	h.run.Violate(f.kind, f.what, "", f.kind == "correspondence", cs)
 }
 
@@ -1110,6 +1118,7 @@ func main() {
 	}()
 	run.SetRule("A0: raw query strings (escapes valid and invalid, separators, repeated names) against net/url; A1: HTTP requests spelled from abstract classes (method × 4 URL parameters × media type × body class; exhaustive over the classes, spellings from the PRNG); " +
 		"A2/A4: start/subscribe frames (kind × didInit × payload class); A3: the A1 envelopes through API.ServeGraphQL of rotating configurations; " +
+		"H: histories of 2-4 requests on freshly built API instances (same query text, features / variables / operation name / transport varied between steps); " +
 		"B: operations (query, operationName, variables) generated type-directed from an argument-echoing schema, sent over the 5 carriers × 8 API configurations. " +
 		"distinct = distinct concrete case; non-trivial = (op) at least one resolver ran and the operation carries variables or an operation name, " +
 		"(envelope) the envelope carries a JSON object or is malformed by the property's definition")
@@ -1171,6 +1180,28 @@ func main() {
 	}
 	run.Note("phase A0 done at %.1fs", run.Elapsed().Seconds())
 
+	// H: histories on fresh API instances (before the phases that share long-lived instances: a
+	// history replays by itself, so it is the better witness of a defect that depends on earlier requests)
+	for i, op := range featureOps() {
+		// every feature-dependent operation: privileged caller first, then the same text with fewer
+		// features over another transport, then privileged again
+		cs := Case{Kind: "hist", Seed: uint64(i) + 1, Hist: []Step{
+			{Op: op, Feats: "featA,featB", Carrier: carriersFor(op)[i%len(carriersFor(op))]},
+			{Op: op, Feats: []string{"", "featA", "featB"}[i%3], Carrier: carriersFor(op)[(i+1)%len(carriersFor(op))]},
+			{Op: op, Feats: "featA,featB", Carrier: carriersFor(op)[(i+2)%len(carriersFor(op))]},
+			{Op: op, Feats: "", Carrier: carriersFor(op)[i%len(carriersFor(op))]},
+		}}
+		h.report(cs, h.runCase(cs, false))
+	}
+	for i := 0; i < run.Scale(300, 12000); i++ {
+		r := run.Rand.Fork()
+		cs := Case{Kind: "hist", Seed: r.Uint64(), Hist: genHist(r)}
+		h.report(cs, h.runCase(cs, false))
+		if i == 0 {
+			run.Sample(cs)
+		}
+	}
+	run.Note("phase H done at %.1fs", run.Elapsed().Seconds())
 	// A1 (+A3 on a rotating configuration): exhaustive over abstract classes
 	mapClasses := []string{"absent", "empty", "null", "obj", "bad"}
 	n := 0
@@ -1234,14 +1265,14 @@ func main() {
 	// B: the differential
 	for i, op := range handOps() {
 		op := op
-		cs := Case{Kind: "op", Seed: uint64(i) + 1, Op: &op}
+		cs := Case{Kind: "op", Seed: uint64(i) + 1, Op: &op, Feats: featChoices[(i+int(run.Seed))%len(featChoices)]}
 		h.report(cs, h.runCase(cs, false))
 		run.Count("op:hand-written")
 	}
-	for i := 0; i < run.Scale(600, 20000); i++ {
+	for i := 0; i < run.Scale(450, 16000); i++ {
 		r := run.Rand.Fork()
 		spec, op := genOp(r)
-		cs := Case{Kind: "op", Seed: r.Uint64(), Op: &op, Spec: &spec}
+		cs := Case{Kind: "op", Seed: r.Uint64(), Op: &op, Spec: &spec, Feats: hx.Pick(r, featChoices)}
 		h.report(cs, h.runCase(cs, false))
 		if i < 3 {
 			run.Sample(cs)
@@ -1260,6 +1291,7 @@ func main() {
 		}
 	}
 	run.Note("phase B done at %.1fs", run.Elapsed().Seconds())
+
 	run.Finish(h.model)
 }
 
